@@ -279,6 +279,33 @@ func c03R3(c *Ctx) {
 			c.check(okZero, "nextBuffer/new-chunk-resets-cursor", c.ipos(sel), "a new chunk resets the cursor to 0", "a new chunk does not reset the cursor")
 		}
 	})
+	// every replacement of the current chunk restarts the cursor before the function returns
+	nSwap := 0
+	for _, g := range c.AllFns {
+		eachInstr(g, func(in ssa.Instruction) {
+			st, ok := in.(*ssa.Store)
+			if !ok {
+				return
+			}
+			if n, _ := fieldAddrName(st.Addr); n != "trzszBuffer.nextBuf" {
+				return
+			}
+			nSwap++
+			hit, path := reachAvoid(st, func(x ssa.Instruction) bool { _, isRet := x.(*ssa.Return); return isRet }, func(x ssa.Instruction) bool {
+				s2, ok := x.(*ssa.Store)
+				if !ok {
+					return false
+				}
+				n2, _ := fieldAddrName(s2.Addr)
+				z, isC := constInt(s2.Val)
+				return n2 == "trzszBuffer.nextIdx" && isC && z == 0
+			})
+			c.check(hit == nil, c.fnName(g)+"/chunk-swap-resets-cursor", c.ipos(st), "the cursor restarts at 0 whenever the current chunk is replaced", "the current chunk is replaced and the function returns with the old cursor (the new chunk is read from a stale offset)", c.pathStr(path)...)
+		})
+	}
+	if nSwap < 3 {
+		c.undecided("chunk-swap-resets-cursor/sites", "fewer chunk replacements than expected")
+	}
 	// popBuffer (relay flush): shared with C13-R2
 	c13R2pop(c)
 }
